@@ -379,6 +379,20 @@ SCENARIOS = [
     ("ia32-pae-vmap_area_list", "gen_ia32_linux", dict(vsrc="vmap_area_list", first_area_off=0, pae=True, rootsrc="cr3+sym")),
     ("ia32-vmlist", "gen_ia32_linux", dict(vsrc="vmlist", first_area_off=0, rootsrc="sym")),
     ("ia32-no-vmalloc-start", "gen_ia32_linux", dict(vsrc="none", rootsrc="cr3+sym")),
+    # ---- ia32 dumps taken in process context: the root is the crashing task's, not swapper_pg_dir
+    ("ia32-task-pgd-option-pae-unknown-lookalike", "gen_ia32_linux",
+     dict(vsrc="vmap_area_list", pae=False, rootsrc="opt", rootopt_as=G.KPHYS, phys_bits_opt=False, task=True, lookalike=True)),
+    ("ia32-task-pgd-cr3-vmlist-lookalike", "gen_ia32_linux",
+     dict(vsrc="vmlist", pae=False, rootsrc="cr3+sym", phys_bits_opt=False, task=True, lookalike=True)),
+    ("ia32-pae-task-pdpt-cr3-unaligned-stale-neighbour", "gen_ia32_linux",
+     dict(vsrc="vmap_area_list", pae=True, rootsrc="cr3", phys_bits_opt=True, task=True, pdpt_slot=95, slab_neighbours="stale")),
+    ("ia32-pae-task-pdpt-cr3-unaligned-alone", "gen_ia32_linux",
+     dict(vsrc="vmlist", pae=True, rootsrc="cr3+sym", phys_bits_opt=False, task=True, pdpt_slot=127, slab_neighbours="none")),
+    ("ia32-pae-task-pdpt-option-kv-unaligned", "gen_ia32_linux",
+     dict(vsrc="vmap_area_list", pae=True, rootsrc="opt", rootopt_as=G.KV, task=True, pdpt_slot=3, slab_neighbours="live")),
+    # ---- Xen 3.2-3.4: superpage in the ioremap area at the address a 4.0 development snapshot used for its text
+    ("x86_64-xen-3.4-ioremap-superpage-at-4.0dev-text", "gen_x86_64_xen", dict(variant="3.2", ioremap="at-4.0dev", rootsrc="cr3", ver=None)),
+    ("x86_64-xen-3.2-ioremap", "gen_x86_64_xen", dict(variant="3.2", ioremap="any", rootsrc="sym", ver=G.XENVER(3, 2))),
     ("riscv64-sv39", "gen_riscv64_linux", dict(levels=3, rootsrc="sym", vb=(True, False))),
     ("riscv64-sv48-1g", "gen_riscv64_linux", dict(levels=4, gran=3, rootsrc="opt", vb=(False, True))),
     ("riscv64-sv57", "gen_riscv64_linux", dict(levels=5, gran=2, rootsrc="sym", vb=(True, True))),
@@ -600,7 +614,7 @@ def run(R):
         tot["complete_but_failed"] += st.get("complete_but_failed", 0)
         tot["after_failed_init"] += st.get("after_failed_init", 0)
         for k in ("levels", "gran", "rootsrc", "variant", "pae", "vsrc", "l5src", "rcaps", "sme", "page_bits", "va_bits", "new_layout", "hsrc",
-                  "dm", "phys_base_opt", "stext", "vbsrc", "history", "be", "xen_xlat0", "pat"):
+                  "dm", "phys_base_opt", "stext", "vbsrc", "history", "be", "xen_xlat0", "pat", "task", "lookalike", "slab_neighbours", "ioremap"):
             if k in img.desc:
                 hk = "%s.%s=%s" % (gen[4:], k, img.desc[k])
                 hist[hk] = hist.get(hk, 0) + 1
